@@ -5,9 +5,10 @@ CONSTANTS
   Vals = {1, 2}
   MaxDepth = 3
   NR = 1
-  NT = 1
+  NT = 2
   Writers = {1}
-  RdThreads = {1}
+  ItThreads = {1}
+  RdThreads = {}
   MapInit = 10
   UsedInit = 0
   Chunk = 10
